@@ -3185,3 +3185,156 @@ def emitter_lengths(ctx, mir, stats):
         if not found:
             obs.append({"id": oid + ":announce", "ok": False, "functions": [g.name], "where": g.name, "needs_native": True, "native": EMIT_NATIVE, "detail": "the closure of %s produces no Size" % cfield})
     return obs
+
+
+# --------------------------------------------------------------------------
+# C18 / C04: GCC conference create request (emitted) and response (accepted) against the T.124 template
+# --------------------------------------------------------------------------
+def _named_const_bytes(text, name):
+    """bytes of `const NAME: [u8; N]` in the MIR dump (array literal or byte-string literal)"""
+    m = re.search(r"^const (?:\w+::)*%s: \[u8; \d+\] = \{(.*?)\n\}" % re.escape(name), text, re.S | re.M)
+    if not m:
+        return None
+    a = re.search(r"_0 = \[(.*?)\];", m.group(1))
+    if a:
+        return [int(x) for x in re.findall(r"const (\d+)_u8", a.group(1))]
+    b = re.search(r'const b"(.*?)";', m.group(1))
+    if b:
+        return [ord(c) if len(c) == 1 else int(c[2:], 16) for c in re.findall(r'\\x[0-9a-fA-F]{2}|.', b.group(1))]
+    return None
+
+
+def _arg_desc(text, fshort, events, idx, a):
+    a = a.strip()
+    m = re.match(r"const (\d+)_\w+$", a)
+    if m:
+        return int(m.group(1))
+    src = resolve_source(events, idx, a, depth=8)
+    m = re.search(r"promoted\[(\d+)\]", src)
+    if m:
+        pm = re.search(r"^const [^\n]*%s::promoted\[%s\]: &[^\n]* = \{(.*?)\n\}" % (re.escape(fshort), m.group(1)), text, re.S | re.M)
+        if pm:
+            nm = re.search(r"= const (?:\w+::)*(\w+);", pm.group(1))
+            if nm and _named_const_bytes(text, nm.group(1)) is not None:
+                return (nm.group(1), bytes(_named_const_bytes(text, nm.group(1))))
+            b = re.search(r'const b"(.*?)";', pm.group(1))
+            if b:
+                return ("literal", b.group(1).encode())
+    m = re.search(r'const b"(.*?)"', src)
+    if m:
+        return ("literal", m.group(1).encode())
+    if re.match(r"^\??_1$|copy _1$", src.strip()) or src.strip() in ("?_1",):
+        return "ARG1"
+    return src[:60]
+
+
+GCC_REQ_TEMPLATE = [("write_choice", [0]), ("write_object_identifier", [("T124_02_98_OID", bytes([0, 0, 20, 124, 0, 1]))]), ("write_length", ["LEN"]), ("write_choice", [0]), ("write_selection", [8]),
+                    ("write_numeric_string", [("literal", b"1"), 1]), ("write_padding", [1]), ("write_number_of_set", [1]), ("write_choice", [0xc0]),
+                    ("write_octet_stream", [("H221_CS_KEY", b"Duca"), 4]), ("write_octet_stream", ["ARG1", 0])]
+GCC_RSP_TEMPLATE = [("read_choice", []), ("read_object_identifier", [("T124_02_98_OID", bytes([0, 0, 20, 124, 0, 1]))]), ("read_length", []), ("read_choice", []), ("read_integer_16", [1001]), ("read_integer", []),
+                    ("read_enumerates", []), ("read_number_of_set", []), ("read_choice", []), ("read_octet_stream", [("H221_SC_KEY", b"McDn"), 4]), ("read_length", [])]
+
+GCC_CONF_NATIVE = _native("verif_replay_gcc_conference", "src/core/gcc.rs", """
+        // T.124 ConnectData / ConferenceCreateRequest as sent by every RDP client (MS-RDPBCGR 2.2.1.3), for user data of 128..16000 bytes
+        for n in [128usize, 129, 200, 300, 1000, 4000, 16000].iter() {
+            let user: Vec<u8> = (0..*n).map(|i| (i % 251) as u8).collect();
+            let b = write_conference_create_request(&user).unwrap();
+            let mut exp = vec![0x00, 0x05, 0x00, 0x14, 0x7c, 0x00, 0x01];
+            let l = n + 14;
+            exp.extend_from_slice(&[0x80 | (l >> 8) as u8, l as u8]);
+            exp.extend_from_slice(&[0x00, 0x08, 0x00, 0x10, 0x00, 0x01, 0xc0, 0x00]);
+            exp.extend_from_slice(b"Duca");
+            exp.extend_from_slice(&[0x80 | (n >> 8) as u8, *n as u8]);
+            exp.extend_from_slice(&user);
+            assert_eq!(b, exp, "conference create request for {} bytes of user data", n);
+            // the connectPDU length is the number of bytes that follow it
+            assert_eq!(l, b.len() - 9, "connectPDU length for {} bytes of user data", n);
+        }
+        // ConferenceCreateResponse: the fixed part is checked field by field, the server blocks are found after it
+        let blocks: Vec<u8> = vec![0x01, 0x0c, 12, 0, 4, 0, 8, 0, 0, 0, 0, 0,   0x03, 0x0c, 10, 0, 0xeb, 3, 1, 0, 0xec, 3];
+        let rsp = |oid_last: u8, key: &[u8; 4]| {   // (strictness towards ill-formed responses is not part of the property and is not asserted)
+            let mut r = vec![0x00, 0x05, 0x00, 0x14, 0x7c, 0x00, oid_last, 0x2a, 0x14, 0x76, 0x0a, 0x01, 0x01, 0x00, 0x01, 0xc0, 0x00]; r.extend_from_slice(key);
+            r.push(blocks.len() as u8); r.extend_from_slice(&blocks); r };
+        let good = read_conference_create_response(&mut Cursor::new(rsp(1, b"McDn")));
+        assert!(good.is_ok(), "a well-formed conference create response is refused");
+        let d = good.unwrap();
+        assert_eq!(d.channel_ids, vec![1004], "channel ids of the response");
+        assert!(d.rdp_version == Version::RdpVersion5plus, "version of the response");""")
+
+
+def gcc_conference(ctx, mir, stats):
+    """E3: the request emitter and the response reader are walked on their all-Ok path; the sequence of PER primitives and their constant
+    arguments is compared with the T.124 template, and the connectPDU length is decided over every user-data size with SMT."""
+    text = ctx.get("mir_text", "")
+    obs = []
+    for fn_re, tmpl, kind in ((r"^write_conference_create_request$", GCC_REQ_TEMPLATE, "request"), (r"^read_conference_create_response$", GCC_RSP_TEMPLATE, "response")):
+        f = find_fn(mir, fn_re)
+        se = SymExec(f, stats, loop_bound=0, max_paths=6000).run()
+        best, bestn = None, -1
+        for p in se.finished + [a[0] for a in se.asserts]:
+            n = len(calls_on(p.events, r"^(per::)?(write|read)_\w+$"))
+            if n > bestn:
+                best, bestn = p, n
+        if best is None:
+            raise Inconclusive("ENCODING-FAILED: no path through %s" % f.name)
+        p = best
+        seq = []
+        for i, ev in calls_on(p.events, r"^(per::)?(write|read)_\w+$"):
+            name = ev[2].split("::")[-1]
+            args = [_arg_desc(text, f.name, p.events, i, a) for a in ev[4]]
+            seq.append((name, args, i, ev))
+        # stream arguments (&mut Cursor / &mut dyn Read) are not part of the template
+        def norm(name, args):
+            out = []
+            for a in args:
+                if isinstance(a, (int, tuple)) or (a == "ARG1" and kind == "request"):
+                    out.append(a)
+            return out
+        got = [(n, norm(n, a)) for n, a, _i, _e in seq][:len(tmpl)]
+        for k, (tn, ta) in enumerate(tmpl):
+            if k >= len(got):
+                obs.append({"id": "gcc:%s:step%d" % (kind, k), "ok": False, "functions": [f.name], "where": f.name, "needs_native": True, "native": GCC_CONF_NATIVE, "detail": "step %d (%s) of the T.124 %s is missing" % (k, tn, kind)})
+                continue
+            gn, ga = got[k]
+            exp = [x for x in ta if x != "LEN"]
+            if tn == "write_length":
+                ga = []
+            okk = gn == tn and [x[1] if isinstance(x, tuple) else x for x in ga] == [x[1] if isinstance(x, tuple) else x for x in exp]
+            obs.append({"id": "gcc:%s:step%d:%s" % (kind, k, tn), "ok": okk, "functions": [f.name], "where": f.name, "needs_native": True, "native": None if okk else GCC_CONF_NATIVE,
+                        "detail": "step %d of the conference create %s is %s%s" % (k, kind, tn, exp) if okk else "step %d of the conference create %s is %s%s, the template has %s%s" % (k, kind, gn, ga, tn, exp)})
+        if kind == "request":
+            wl = [s for s in seq if s[0] == "write_length"]
+            L = next((v for k2, v in p.env.items() if k2.startswith("len(") or k2.startswith("slice_len(") or k2.startswith("meta(")), None)
+            if wl:
+                i, ev = wl[0][2], wl[0][3]
+                v = ev[3][0]
+                from z3 import z3util
+                vs = z3util.get_vars(v) if v is not None else []
+                if v is None or len(vs) != 1:
+                    obs.append({"id": "gcc:request:connect-pdu-length", "ok": False, "functions": [f.name], "where": f.name, "needs_native": True, "native": GCC_CONF_NATIVE, "detail": "connectPDU length is not a function of the user data size alone (%s)" % (v,)})
+                else:
+                    L = vs[0]
+                    # bytes after the length: choice 1, selection 1, numeric string "1" 2, padding 1, number of set 1, choice 1, key 1 + 4, user data length determinant (2 for 128..0x7fff) + data
+                    after = L + z3.BitVecVal(12, L.size()) + z3.If(z3.ULT(L, z3.BitVecVal(128, L.size())), z3.BitVecVal(1, L.size()), z3.BitVecVal(2, L.size()))
+                    rng = z3.And(z3.UGE(L, z3.BitVecVal(128, L.size())), z3.ULE(L, z3.BitVecVal(0x7fff - 14, L.size())))
+                    verdict, mdl, smt = se.check(p, [rng, v != z3.Extract(15, 0, after)], "connectPDU length")
+                    cvc5_check(smt, verdict, stats)
+                    obs.append({"id": "gcc:request:connect-pdu-length", "ok": verdict == "unsat", "functions": [f.name], "where": f.name, "cex": mdl, "needs_native": False, "native": None if verdict == "unsat" else GCC_CONF_NATIVE,
+                                "detail": "for every user-data size 128..32753 the connectPDU length equals the number of bytes written after it (12 fixed + 2-byte length determinant + data)" if verdict == "unsat" else
+                                "connectPDU length differs from the bytes that follow it: %s" % mdl})
+                    for (ap, bname, msg, cond, atext) in se.asserts:
+                        if cond is None or not any(x.eq(L) for x in z3util.get_vars(cond)):
+                            continue
+                        verdict, mdl, smt = se.check(ap, [rng, z3.Not(cond)], "request arithmetic")
+                        obs.append({"id": "gcc:request:no-overflow@" + bname, "ok": verdict == "unsat", "functions": [f.name], "where": f.name + " " + bname, "cex": mdl, "needs_native": False,
+                                    "detail": "`%s` cannot fail for user data of 128..32753 bytes" % msg if verdict == "unsat" else "`%s` fails for %s" % (msg, mdl)})
+        # every primitive's result is propagated: the next primitive is reachable only through the Ok edge of the previous one
+        prims = call_blocks(f, r"^(per::)?(write|read)_\w+$")
+        unchecked = []
+        for b in prims:
+            rs = result_switch(f, b)
+            if not rs:
+                unchecked.append(b)
+        obs.append({"id": "gcc:%s:results-propagated" % kind, "ok": not unchecked, "functions": [f.name], "where": f.name, "needs_native": True, "native": None if not unchecked else GCC_CONF_NATIVE,
+                    "detail": "the result of every PER primitive in %s is tested" % f.name if not unchecked else "results of the PER primitives in %s are not tested" % unchecked})
+    return obs
